@@ -28,7 +28,7 @@ func init() {
 		ID:        "C04",
 		Technique: "typestate of the pending table (lookup-remove-write in one critical section), single-writer slot rules, atomic read-modify-write of the id counter, id/key provenance, routing dominance",
 		Explanation: "Decides: (D1) the id counter is read into FormatInt and incremented by exactly 1 in one critical section, with no other writer and no arithmetic between counter and id; (D2) every write into a response slot happens under the client lock, after a hit lookup of the id in the pending table and its removal, to the looked-up entry, once, with no release in between (3 sites); slots have constant capacity ≥ 1; (D3) requests are registered under the lock with key = Response.id, only on the success edge of Send, each with a context watcher whose cancel function is stored in the Response; (D4) the message written into a slot carries the id under which the Response was registered (the id-mismatch panic is unreachable), and request-shaped inbound members are routed away before the table is consulted; unknown ids return without a write.",
-		NotDecided: []string{"that the value delivered equals what the peer sent for every reply stream", "Batch order beyond 'send's slice is returned unchanged' (lock-step slices not proved)"},
+		NotDecided: []string{"that the value delivered equals what the peer sent for every reply stream", "that response i of Batch belongs to call i is decided only structurally (request i from spec i, one slot per id-carrying request in one in-order pass, send's slice returned unchanged)"},
 		Assumptions: []string{"sync.Mutex semantics", "strconv.FormatInt is injective"},
 		RuleText:    ruleText,
 		Run: func(c *chk.Ctx, tier string) {
@@ -44,6 +44,8 @@ func init() {
 			c.Clause("C04-D4")
 			ruleTokenKeyed(c, "client")
 			ruleClientRouting(c)
+			c.Clause("C04-D5")
+			ruleBatchOrder(c)
 		},
 	})
 	register(&Def{
@@ -69,6 +71,8 @@ func init() {
 			ruleReaderExitStops(c, "client")
 			c.Clause("C05-D4")
 			ruleFilterErrorTable(c)
+			ruleWatcherReportsCtxErr(c, "client")
+			ruleEveryPeerErrorFiltered(c)
 			c.Clause("C05-D5")
 			ruleHooks(c)
 			c.Clause("C05-D6")
@@ -91,6 +95,7 @@ func init() {
 			c.Clause("C09-D3")
 			ruleAtomicCounter(c, "server", c.M.SCallID)
 			c.Clause("C09-D4")
+			ruleWatcherReportsCtxErr(c, "server")
 			ruleTokenWrite(c, "server")
 			ruleTokenKeyed(c, "server")
 			ruleTokenRegister(c, "server")
